@@ -569,9 +569,16 @@ class KeychainSqlite3(Keychain):
         """
         name = Name.to_bytes(id_name)
         if name not in self:
-            self.conn.execute('INSERT INTO identities (identity) VALUES (?)', (name,))
-            self.conn.commit()
-            self.new_key(name)
+            try:
+                self.conn.execute('INSERT INTO identities (identity) VALUES (?)', (name,))
+                self.conn.commit()
+                self.new_key(name)
+            except Exception:
+                # Do not leave an identity without key behind, which a retry would return as it is
+                self.conn.rollback()
+                self.conn.execute('DELETE FROM identities WHERE identity=?', (name,))
+                self.conn.commit()
+                raise
         if not self.has_default_identity():
             self.set_default_identity(name)
         return self[name]
